@@ -200,8 +200,7 @@ def e2e_units():
         {'unit': 'api_e2e_unstored', 'props': ['C04'], 'tu': 'api', 'configs': ['def64', 's1p16'], 'quick_configs': ['s1p16'],
          'roots': E2E_COMMON + ['api::e2e_element_set_cstr', 'api::e2e_member_set_cstr', 'api::e2e_element_set_int'],
          'stubs': ['DefaultAllocator__instance', 'CollectionData__clear__ResourceManager_p'], 'spec': SPEC, 'native': True,
-         'obligations': [e('set_true_means_stored_' + n, 'h_e2e_unstored', 'CANARY_E2E_UNSTORED', ['C04'], ['E2E_UNSTORED=1', 'UNSTORED_SCEN=' + k])
-                         for n, k in (('element_of_object', '0'), ('member_of_array', '1'), ('null_key', '2'), ('integer_is_refused', '3'))]},
+         'obligations': [e('set_true_means_stored', 'h_e2e_unstored', 'CANARY_E2E_UNSTORED', ['C04'], ['E2E_UNSTORED=1'])]},
         {'unit': 'api_e2e_arrayset', 'props': ['C04', 'C05', 'C06'], 'tu': 'api', 'configs': ['def64', 's1p16'], 'quick_configs': ['s1p16'],
          'roots': E2E_COMMON + ['api::e2e_array_set', 'api::e2e_array_add_int'],
          'stubs': ['DefaultAllocator__instance', 'VariantRefBase_JsonVariant__set_JsonArrayConst', 'VariantRefBase_JsonVariant__set_JsonObjectConst'], 'spec': SPEC, 'native': True,
